@@ -28,8 +28,9 @@ PROPS = {
         stub=[],
         assumptions=["the reference is a cursor model written from the property text; Line/Column are compared with a fresh "
                      "StringScanner read forward to the same cursor, as the property words it",
-                     "the characters of a content that is not well-formed UTF-8 are those the Go language defines for a string (range / []rune: "
-                     "one U+FFFD per offending byte)",
+                     "contents that are not well-formed UTF-8 contain stray single bytes only (lead byte without continuation, 0xFF, lone continuation "
+                     "byte), whose characters are the same under Go's conversion (one U+FFFD per offending byte) and under maximal-subpart substitution; "
+                     "truncated multi-byte prefixes, where legal decoders differ, are not generated",
                      "fault kinds: none exist at this surface (in-memory scanner, no I/O)"],
     ),
     "C17": one(
@@ -66,8 +67,8 @@ PROPS = {
         stub=[],
         assumptions=["model: map symbol -> type; a read returns the longest registered prefix, else the next single character as a plain symbol",
                      "every symbol has one fixed type of its own (re-registering a symbol with another type is not generated)",
-                     "symbols and inputs that are not well-formed UTF-8 are compared as the character sequences the Go language defines for them "
-                     "(two different byte strings with the same character sequence are one symbol)",
+                     "symbols and inputs that are not well-formed UTF-8 contain stray single bytes only (0xFF, 0xC3, 0x80) and are compared as the character "
+                     "sequences these give under any usual decoder (two different byte strings with the same character sequence are one symbol)",
                      "fault kinds: none exist at this surface (end of input inside a symbol is an input, not a fault)"],
     ),
     "C20": one(
